@@ -208,7 +208,28 @@ def unbounded_connected(rng, R=20, den=1, n=None):
     return simple_shape(rng, R, den, False)
 
 
+def _no_spike(j):
+    """no junction at which the curve doubles back exactly on itself (outgoing tangent = minus incoming tangent)"""
+    n = len(j)
+    for i in range(n):
+        a, b = j[i], j[(i + 1) % n]
+        d1 = (a[-1][0] - a[-2][0], a[-1][1] - a[-2][1])
+        d2 = (b[1][0] - b[0][0], b[1][1] - b[0][1])
+        if d1[0] * d2[1] - d1[1] * d2[0] == 0 and d1[0] * d2[0] + d1[1] * d2[1] <= 0:
+            return False
+    return True
+
+
 def coincident_curve(rng, R=6):
+    for _ in range(100):
+        j = _coincident_curve(rng, R)
+        if _no_spike(j):
+            return j
+    return [[(F(0), F(0)), (F(2), F(2)), (F(4), F(0))], [(F(4), F(0)), (F(4), F(3))], [(F(4), F(3)), (F(2), F(2))],
+            [(F(2), F(2)), (F(0), F(3))], [(F(0), F(3)), (F(0), F(0))]]
+
+
+def _coincident_curve(rng, R=6):
     """closed curves (degree 1..3 segments) in which two DISTINCT control points have the same coordinates:
     cubic pieces with doubled handles, or a quadratic piece whose middle control point sits on a vertex elsewhere"""
     if rng.random() < 0.5:
@@ -217,6 +238,8 @@ def coincident_curve(rng, R=6):
         for a, b in poly_edges(vs):
             if rng.random() < 0.6:
                 h = ((a[0] + b[0]) / 2 + F(rng.choice([-1, 1]), 2), (a[1] + b[1]) / 2 + F(rng.choice([-1, 1]), 2))
+                if h in (a, b):          # a handle on an end point would make a cusp (irregular segment)
+                    h = (h[0] + F(3, 4), h[1] - F(1, 4))
                 j.append([a, h, h, b])
             else:
                 j.append([a, b])
